@@ -164,6 +164,16 @@ func panicSite(stack string) string {
 		}
 		if strings.Contains(fn, "Eyevinn/mp4ff") {
 			fn = fn[strings.Index(fn, "mp4ff/")+6:]
+			if i+1 < len(lines) {
+				loc := strings.TrimSpace(lines[i+1])
+				if k := strings.LastIndex(loc, "/"); k >= 0 {
+					loc = loc[k+1:]
+				}
+				if k := strings.Index(loc, " "); k >= 0 {
+					loc = loc[:k]
+				}
+				return fn + " " + loc
+			}
 			return fn
 		}
 	}
